@@ -22,6 +22,7 @@ from ..expr.lift import Lifter, equal
 from ..stencil import kernels
 from ..stencil.alg import Aff, Lin, Rat, idx_key, fmt_atom
 from ..stencil.reference import RefOp
+from ..core.template import find, has
 
 LEVEL = 'other'
 FIELDS = 'emg3d/fields.py'
@@ -95,10 +96,15 @@ def rule_PV(ctx, fm):
         r, e, up = [ast.unparse(x) for x in u.targets[0].elts]
         lower = ast.unparse(u.value.args[0])
         axes[a] = {'lower': lower, 'upper': up, 'e': e, 'r': r}
+        shp = find(f'_n0_, _n1_, _n2_ = {arr}.shape', psf)
+        nname = shp[0][1][f'_n{a}_'] if shp else None
         ok = ast.unparse(u.value.args[2]).replace(' ', '') == \
-            f'{pps[3]}[{a}]' and ast.unparse(u.value.args[3]) == pps[a]
+            f'{pps[3]}[{a}]' and ast.unparse(u.value.args[3]) == pps[a] and \
+            ast.unparse(u.value.args[1]) == nname
         ctx.check('C09.PV.axes', f'point_source axis {"xyz"[a]} inputs', ok,
-                  'coordinate / grid vector of this axis are not paired',
+                  'coordinate / grid vector / array size of this axis are not '
+                  'paired (the last-index special case would fire in the wrong '
+                  'layer)',
                   ctx.where(fm, u))
     stores = [n for n in psf.body if isinstance(n, ast.Assign) and isinstance(
         n.targets[0], ast.Subscript) and ast.unparse(n.targets[0].value) ==
